@@ -77,6 +77,59 @@ type State struct {
 	Events      []string // ordered effect log (lock/unlock/calls) for path obligations
 	monObjs  map[string]monObj
 	lockSnap map[string]*State
+	// HLog records every bulk havoc of heap fields / memories on this path, so that a key that is
+	// first touched after the havoc does not silently denote its entry value.
+	HLog []*havocEvent
+}
+
+// havocEvent is one bulk havoc: every covered key gets a new version, named deterministically from
+// the event id so that the version is the same whenever (and on whichever fork) it is first needed.
+type havocEvent struct {
+	id        int
+	mem       bool // memories (Mems) rather than heap fields
+	covers    func(k string) bool
+	constrain func(s *State, k string, old, nw *Term)
+}
+
+var havocSeq int
+
+func (s *State) logHavoc(mem bool, covers func(string) bool, constrain func(*State, string, *Term, *Term)) *havocEvent {
+	havocSeq++
+	if !mem && s.X != nil && s.X.P != nil && len(s.X.P.CS.Immutables) > 0 {
+		inner, cs := covers, s.X.P.CS
+		covers = func(k string) bool { return !cs.immutableKey(k) && inner(k) }
+	}
+	ev := &havocEvent{id: havocSeq, mem: mem, covers: covers, constrain: constrain}
+	s.HLog = append(s.HLog[:len(s.HLog):len(s.HLog)], ev)
+	return ev
+}
+
+func (ev *havocEvent) version(k, sort string) *Term {
+	pre := "H"
+	if ev.mem {
+		pre = "Mem"
+	}
+	return Var(fmt.Sprintf("%s@%d$%s", pre, ev.id, k), sort)
+}
+
+// lazyVersion is the current version of a key that was not touched on this path so far.
+func (s *State) lazyVersion(mem bool, key, sort string) *Term {
+	pre := "H0$"
+	if mem {
+		pre = "Mem0$"
+	}
+	h := Var(pre+key, sort)
+	for _, ev := range s.HLog {
+		if ev.mem != mem || !ev.covers(key) {
+			continue
+		}
+		nh := ev.version(key, sort)
+		if ev.constrain != nil {
+			ev.constrain(s, key, h, nh)
+		}
+		h = nh
+	}
+	return h
 }
 
 type loopEntry struct {
@@ -479,7 +532,7 @@ func (s *State) memSort(elemSort string) string {
 func (s *State) mem(key, elemSort string) *Term {
 	m, ok := s.Mems[key]
 	if !ok {
-		m = Var("Mem0$"+key, s.memSort(elemSort))
+		m = s.lazyVersion(true, key, s.memSort(elemSort))
 		s.Mems[key] = m
 		s.X.noteSym(m)
 	}
@@ -616,6 +669,7 @@ func (s *State) assumeZeroed(arr *Term, elem types.Type, n int64) {
 }
 
 func (s *State) havocAllMem() {
+	ev := s.logHavoc(true, func(k string) bool { return k != "str" }, nil)
 	keys := make([]string, 0, len(s.Mems))
 	for k := range s.Mems {
 		keys = append(keys, k)
@@ -625,7 +679,7 @@ func (s *State) havocAllMem() {
 		if k == "str" {
 			continue // strings are immutable
 		}
-		s.Mems[k] = Fresh("Mem$"+k, s.Mems[k].Sort)
+		s.Mems[k] = ev.version(k, s.Mems[k].Sort)
 	}
 	s.X.memHavocEpoch++
 }
@@ -636,7 +690,7 @@ func (s *State) havocAllMem() {
 func (s *State) heapArr(key, sort string) *Term {
 	h, ok := s.Heap[key]
 	if !ok {
-		h = Var("H0$"+key, SArr(SInt, sort))
+		h = s.lazyVersion(false, key, SArr(SInt, sort))
 		s.Heap[key] = h
 		s.X.noteSym(h)
 		s.X.heapSorts[key] = sort
@@ -668,17 +722,20 @@ func (s *State) heapStore(ref *Term, root string, t types.Type, v Value) {
 
 // havocHeapKeyPrefix replaces every field array whose key starts with prefix.
 func (s *State) havocHeapPrefix(prefix string) {
+	s.havocHeapWhere(func(k string) bool { return keyUnder(k, prefix) })
+}
+
+func (s *State) havocHeapWhere(covers func(string) bool) {
+	ev := s.logHavoc(false, covers, nil)
 	for k, h := range s.Heap {
-		if keyUnder(k, prefix) {
-			s.Heap[k] = Fresh("H$"+k, h.Sort)
+		if ev.covers(k) {
+			s.Heap[k] = ev.version(k, h.Sort)
 		}
 	}
 }
 
 func (s *State) havocAllHeap() {
-	for k, h := range s.Heap {
-		s.Heap[k] = Fresh("H$"+k, h.Sort)
-	}
+	s.havocHeapWhere(func(string) bool { return true })
 	s.X.heapHavocEpoch++
 	// axioms about package-level values hold in every reachable state
 	if s.X.P != nil {
